@@ -16,25 +16,25 @@ fn cfgs(id: &str, quick: bool) -> Vec<(&'static str, Cfg, u8)> {
                     "edit-conflicts",
                     // quick: one rename target and one displayname value, no replication steps inside the
                     // trace (every state is run to quiescence under both edge orders anyway)
-                    Cfg { replicas: 2, slots: vec![0], names: 2, disp: true, rename: true, lifecycle: true, revive: true, members: false, refresh: false, aging: false, max_repl: if quick { 0 } else { 1 }, precreate: vec![0], same_time: false, props: props(&["C08"]), pre_ops: vec![], small: quick },
+                    Cfg { class_edits: false, replicas: 2, slots: vec![0], names: 2, disp: true, rename: true, lifecycle: true, revive: true, members: false, refresh: false, aging: false, max_repl: if quick { 0 } else { 1 }, precreate: vec![0], same_time: false, props: props(&["C08"]), pre_ops: vec![], small: quick },
                     if quick { 2 } else { 4 },
                 ),
                 // the same uuid / the same name created independently; membership vs delete
                 (
                     "create-conflicts",
-                    Cfg { replicas: 2, slots: vec![0, 2], names: 2, disp: false, rename: false, lifecycle: true, revive: false, members: true, refresh: false, aging: false, max_repl: 1, precreate: vec![], same_time: false, props: props(&["C08"]), pre_ops: vec![], small: false },
+                    Cfg { class_edits: false, replicas: 2, slots: vec![0, 2], names: 2, disp: false, rename: false, lifecycle: true, revive: false, members: true, refresh: false, aging: false, max_repl: 1, precreate: vec![], same_time: false, props: props(&["C08"]), pre_ops: vec![], small: false },
                     if quick { 2 } else { 4 },
                 ),
             ];
             if !quick {
                 v.push((
                     "same-timestamp",
-                    Cfg { replicas: 2, slots: vec![0], names: 2, disp: true, rename: true, lifecycle: true, revive: true, members: false, refresh: true, aging: false, max_repl: 1, precreate: vec![0], same_time: true, props: props(&["C08"]), pre_ops: vec![], small: false },
+                    Cfg { class_edits: false, replicas: 2, slots: vec![0], names: 2, disp: true, rename: true, lifecycle: true, revive: true, members: false, refresh: true, aging: false, max_repl: 1, precreate: vec![0], same_time: true, props: props(&["C08"]), pre_ops: vec![], small: false },
                     3,
                 ));
                 v.push((
                     "three-replicas",
-                    Cfg { replicas: 3, slots: vec![0], names: 2, disp: true, rename: false, lifecycle: true, revive: false, members: false, refresh: false, aging: false, max_repl: 1, precreate: vec![0], same_time: false, props: props(&["C08"]), pre_ops: vec![], small: false },
+                    Cfg { class_edits: false, replicas: 3, slots: vec![0], names: 2, disp: true, rename: false, lifecycle: true, revive: false, members: false, refresh: false, aging: false, max_repl: 1, precreate: vec![0], same_time: false, props: props(&["C08"]), pre_ops: vec![], small: false },
                     3,
                 ));
             }
@@ -43,32 +43,32 @@ fn cfgs(id: &str, quick: bool) -> Vec<(&'static str, Cfg, u8)> {
         "C19" => vec![
             (
                 "names-two-replicas",
-                Cfg { replicas: 2, slots: vec![0, 1], names: 2, disp: false, rename: true, lifecycle: true, revive: true, members: false, refresh: false, aging: false, max_repl: 1, precreate: vec![], same_time: false, props: props(&["C19"]), pre_ops: vec![], small: false },
+                Cfg { class_edits: false, replicas: 2, slots: vec![0, 1], names: 2, disp: false, rename: true, lifecycle: true, revive: true, members: false, refresh: false, aging: false, max_repl: 1, precreate: vec![], same_time: false, props: props(&["C19"]), pre_ops: vec![], small: false },
                 if quick { 2 } else { 4 },
             ),
         ],
         _ => vec![
             (
                 "delete-vs-edit",
-                Cfg { replicas: 2, slots: vec![0], names: 1, disp: true, rename: false, lifecycle: true, revive: false, members: false, refresh: false, aging: false, max_repl: 2, precreate: vec![0], same_time: false, props: props(&["C09"]), pre_ops: vec![], small: false },
+                Cfg { class_edits: false, replicas: 2, slots: vec![0], names: 1, disp: true, rename: false, lifecycle: true, revive: false, members: false, refresh: false, aging: false, max_repl: 2, precreate: vec![0], same_time: false, props: props(&["C09"]), pre_ops: vec![], small: false },
                 if quick { 2 } else { 4 },
             ),
             (
                 // replica 0 created, deleted and tombstoned the entry; replica 1 never saw it
                 "tombstone-vs-create",
-                Cfg { replicas: 2, slots: vec![0], names: 1, disp: true, rename: false, lifecycle: true, revive: false, members: false, refresh: false, aging: false, max_repl: 1, precreate: vec![], same_time: false, props: props(&["C09"]), pre_ops: vec![Op::Create(0, 0, 0), Op::Delete(0, 0), Op::AgeRecycle(0)], small: true },
+                Cfg { class_edits: false, replicas: 2, slots: vec![0], names: 1, disp: true, rename: false, lifecycle: true, revive: false, members: false, refresh: false, aging: false, max_repl: 1, precreate: vec![], same_time: false, props: props(&["C09"]), pre_ops: vec![Op::Create(0, 0, 0), Op::Delete(0, 0), Op::AgeRecycle(0)], small: true },
                 if quick { 2 } else { 4 },
             ),
             (
                 // the same with the roles swapped: the joined replica made the tombstone, so the
                 // other side has no knowledge of its server id at all and is supplied unconditionally
                 "tombstone-vs-create-swapped",
-                Cfg { replicas: 2, slots: vec![0], names: 1, disp: true, rename: false, lifecycle: true, revive: false, members: false, refresh: false, aging: false, max_repl: 1, precreate: vec![], same_time: false, props: props(&["C09"]), pre_ops: vec![Op::Create(1, 0, 0), Op::Delete(1, 0), Op::AgeRecycle(0)], small: true },
+                Cfg { class_edits: false, replicas: 2, slots: vec![0], names: 1, disp: true, rename: false, lifecycle: true, revive: false, members: false, refresh: false, aging: false, max_repl: 1, precreate: vec![], same_time: false, props: props(&["C09"]), pre_ops: vec![Op::Create(1, 0, 0), Op::Delete(1, 0), Op::AgeRecycle(0)], small: true },
                 if quick { 2 } else { 4 },
             ),
             (
                 "aging",
-                Cfg { replicas: 2, slots: vec![0], names: 1, disp: false, rename: false, lifecycle: true, revive: false, members: false, refresh: false, aging: true, max_repl: 2, precreate: vec![0], same_time: false, props: props(&["C09"]), pre_ops: vec![], small: false },
+                Cfg { class_edits: false, replicas: 2, slots: vec![0], names: 1, disp: false, rename: false, lifecycle: true, revive: false, members: false, refresh: false, aging: true, max_repl: 2, precreate: vec![0], same_time: false, props: props(&["C09"]), pre_ops: vec![], small: false },
                 if quick { 2 } else { 5 },
             ),
         ],
